@@ -231,24 +231,30 @@ FASTOR_INLINE SIMDVector<T,ABI> round(const SIMDVector<T,ABI> &a) {
     for (FASTOR_INDEX i=0; i<SIMDVector<T,ABI>::Size; i++) { ((T*)&out)[i] = std::round(((T*)&a)[i]);}
     return out;
 }
+// std::round rounds halfway cases away from zero whereas _MM_FROUND_TO_NEAREST_INT rounds them to even,
+// so add the largest value below 0.5 with the sign of the argument and truncate
 #ifdef FASTOR_SSE4_1_IMPL
 template<>
 FASTOR_INLINE SIMDVector<float,simd_abi::sse> round(const SIMDVector<float,simd_abi::sse> &a) {
-    return _mm_round_ps(a.value, ( _MM_FROUND_TO_NEAREST_INT | _MM_FROUND_NO_EXC ) );
+    const __m128 half = _mm_or_ps(_mm_set1_ps(0.49999997f), _mm_and_ps(a.value, _mm_set1_ps(-0.f)));
+    return _mm_round_ps(_mm_add_ps(a.value, half), ( _MM_FROUND_TO_ZERO | _MM_FROUND_NO_EXC ) );
 }
 template<>
 FASTOR_INLINE SIMDVector<double,simd_abi::sse> round(const SIMDVector<double,simd_abi::sse> &a) {
-    return _mm_round_pd(a.value, ( _MM_FROUND_TO_NEAREST_INT | _MM_FROUND_NO_EXC ) );
+    const __m128d half = _mm_or_pd(_mm_set1_pd(0.49999999999999994), _mm_and_pd(a.value, _mm_set1_pd(-0.)));
+    return _mm_round_pd(_mm_add_pd(a.value, half), ( _MM_FROUND_TO_ZERO | _MM_FROUND_NO_EXC ) );
 }
 #endif
 #ifdef FASTOR_AVX_IMPL
 template<>
 FASTOR_INLINE SIMDVector<float,simd_abi::avx> round(const SIMDVector<float,simd_abi::avx> &a) {
-    return _mm256_round_ps(a.value, ( _MM_FROUND_TO_NEAREST_INT | _MM_FROUND_NO_EXC ) );
+    const __m256 half = _mm256_or_ps(_mm256_set1_ps(0.49999997f), _mm256_and_ps(a.value, _mm256_set1_ps(-0.f)));
+    return _mm256_round_ps(_mm256_add_ps(a.value, half), ( _MM_FROUND_TO_ZERO | _MM_FROUND_NO_EXC ) );
 }
 template<>
 FASTOR_INLINE SIMDVector<double,simd_abi::avx> round(const SIMDVector<double,simd_abi::avx> &a) {
-    return _mm256_round_pd(a.value, ( _MM_FROUND_TO_NEAREST_INT | _MM_FROUND_NO_EXC ) );
+    const __m256d half = _mm256_or_pd(_mm256_set1_pd(0.49999999999999994), _mm256_and_pd(a.value, _mm256_set1_pd(-0.)));
+    return _mm256_round_pd(_mm256_add_pd(a.value, half), ( _MM_FROUND_TO_ZERO | _MM_FROUND_NO_EXC ) );
 }
 #endif
 //----------------------------------------------------------------------------------------------------------//
